@@ -40,6 +40,66 @@ func enumOp(kind int, label string, hs int, ab ...int) POp {
 // of operation kinds on three initial-stack shapes: process A runs until its
 // k-th filesystem call, process B runs to completion, A finishes - for every
 // k.  Plus double pre-emption for (compaction, Add, Add).
+// enumerateSmall is the slice of the enumeration that the quick tier runs: every single
+// pre-emption point of five operation pairs on one five-table stack (a few hundred schedules).
+func enumerateSmall(rec *Recorder, mon Monitors) (stop bool) {
+	cfg := gen.Cfg{BlockSize: 512, Hash: 1, Exact: true, SkipNameCheck: true}
+	hs := cfg.HashSize()
+	var init []InitOp
+	for i := 0; i < 5; i++ {
+		tx := fixedTx(fmt.Sprintf("init%d", i), hs, i%2 == 1)
+		init = append(init, InitOp{Tx: &tx})
+	}
+	type opk struct {
+		kind int
+		auto bool
+		a, b int
+	}
+	pairs := [][2]opk{
+		{{KCompactAll, false, 0, 0}, {KAdd, false, 0, 0}},
+		{{KAdd, true, 0, 0}, {KCompactAll, false, 0, 0}},
+		{{KCompactRange, false, 0, 1}, {KCompactRange, false, 2, 3}},
+		{{KAdd, true, 0, 0}, {KAdd, true, 0, 0}},
+		{{KOpen, false, 0, 0}, {KCompactAll, false, 0, 0}},
+		{{KClean, false, 0, 0}, {KCompactRange, false, 1, 3}},
+	}
+	total, nontrivial := 0, 0
+	for _, pr := range pairs {
+		a, b := pr[0], pr[1]
+		base := Case{Cfg: cfg, Init: init,
+			Progs: []Prog{{Auto: a.auto, Ops: []POp{{Kind: KOpen}, enumOp(a.kind, "A", hs, a.a, a.b)}}, {Auto: b.auto, Ops: []POp{{Kind: KOpen}, enumOp(b.kind, "B", hs, b.a, b.b)}}}}
+		probe := base
+		probe.Sched = SchedSpec{Kind: "windowed", Order: []int{0, 1}, K: []int{1 << 30}}
+		r0 := Exec(probe, mon)
+		total++
+		if r0.Violation != nil {
+			if v := r0.Violation.(*Violation); !rec.Known(v.Sig) {
+				rec.Violate(v.Sig, v.Msg, probe)
+				return true
+			}
+		}
+		for k := 0; k <= r0.YieldsPerProc[0]; k++ {
+			c := base
+			c.Sched = SchedSpec{Kind: "windowed", Order: []int{0, 1}, K: []int{k}}
+			r := Exec(c, mon)
+			total++
+			if r.OverlapCommit {
+				nontrivial++
+			}
+			if r.Violation != nil {
+				if v := r.Violation.(*Violation); !rec.Known(v.Sig) {
+					rec.Violate(v.Sig, v.Msg, c)
+					rec.AddEnumerated(total, nontrivial)
+					return true
+				}
+			}
+		}
+	}
+	rec.AddEnumerated(total, nontrivial)
+	rec.SetExtra("enumerated_schedules_quick", total)
+	return false
+}
+
 func enumeratePreemptions(rec *Recorder, id string, mon Monitors, shard, nshards int) (stop bool) {
 	kinds := []struct {
 		kind int
